@@ -77,7 +77,9 @@ func init() {
 		if e.thorough {
 			b, per = 10*e.scale, 50
 		}
-		if err := runFamilies(e, "C10", "update", famUpdate, b, per, 8, nil, nil); err != nil {
+		// several lines for one target field in every order (w10_c10.go); every call also judged from the method's own lines
+		e.rep.Rule += "; plus update methods whose comment carries several lines for the same target field (ignore then map, map then ignore, map then map, map | FUNC then a plain map, the one-argument map, multi-field ignore lines) interleaved at random: compared with the model, the per-field settings compared with Gv.Settings.resolve on the raw lines, and every call judged from the method's text: fields named by an ignore line keep their value, a nil source leaves the target untouched"
+		if err := runFamilies(e, "C10", "update", withUpdateLines(e, famUpdate), b, per, 8, nil, updateIgnoredOracle(e)); err != nil {
 			return err
 		}
 		return runFamilies(e, "C10", "update-nillable-pointer", famUpdNillablePtr, 1, 4, 10, nil, nillableOracle(e))
